@@ -64,6 +64,11 @@ type ncCase struct {
 	AfterDelim string   `json:"after_delim"`
 	TimeoutMS  int      `json:"timeout_ms"`
 	Coalesce   int      `json:"coalesce,omitempty"` // see ncDevState
+	// LossAfter > 0: after that many operations the transport reports Loss on every read ("eof" |
+	// "ioerr") while writes still succeed (a half-open connection); every later operation must fail
+	// promptly with a connection / transport error (C06)
+	LossAfter int    `json:"loss_after,omitempty"`
+	Loss      string `json:"loss,omitempty"`
 }
 
 var midRe = regexp.MustCompile(`message-id="(\d+)"`)
@@ -661,7 +666,46 @@ func runNCCase(id string, c *ncCase) {
 				holdMu.Unlock()
 			}()
 		}
+		lost := c.LossAfter > 0 && i >= c.LossAfter
+		if c.LossAfter > 0 && i == c.LossAfter {
+			if c.Loss == "eof" {
+				tr.Fail(sim.LossEOF)
+			} else {
+				tr.Fail(sim.LossErr)
+			}
+			time.Sleep(3 * time.Millisecond) // the read loops meet the loss while nothing is in flight
+		}
+		tCall := time.Now()
 		r, err := callNC(d, o)
+		if lost {
+			// after the loss: an error of connection / transport class, promptly, for EVERY later operation
+			el := time.Since(tCall)
+			cls := errClass(err)
+			switch {
+			case err == nil:
+				cs.Oracle = fmt.Sprintf("request %d after the %s: success", i, c.Loss)
+				cs.Sig = "C06:nc-success-after-loss"
+			case cls == "timeout" || el > time.Duration(c.TimeoutMS)*time.Millisecond*6/10:
+				cs.Oracle = fmt.Sprintf("request %d (the %s after the %s): %v after %v (timeout %d ms): the loss is not reported promptly", i, ordinal(i-c.LossAfter+1), c.Loss, err, el.Round(time.Millisecond), c.TimeoutMS)
+				cs.Sig = "C06:nc-slow-after-loss"
+			case cls != "connection" && cls != "io":
+				cs.Oracle = fmt.Sprintf("request %d after the %s: error class %s (%v)", i, c.Loss, cls, err)
+				cs.Sig = "C06:nc-error-class"
+			}
+			if err != nil && errClass(err) == "timeout" {
+				tr.Mark('D')
+				outs = append(outs, "timeout")
+			} else if err != nil {
+				tr.Mark('X')
+				outs = append(outs, "error")
+			} else {
+				outs = append(outs, "ok-after-loss")
+			}
+			if cs.Oracle != "" && firstOracle == "" {
+				firstOracle, firstSig = cs.Oracle, cs.Sig
+			}
+			continue
+		}
 		switch {
 		case err != nil && errClass(err) == "timeout":
 			tr.Mark('D')
@@ -946,4 +990,16 @@ func contentMissing(o ncOp, payload []byte, force bool) string {
 		}
 	}
 	return ""
+}
+
+func ordinal(n int) string {
+	switch n {
+	case 1:
+		return "1st"
+	case 2:
+		return "2nd"
+	case 3:
+		return "3rd"
+	}
+	return fmt.Sprintf("%dth", n)
 }
